@@ -38,7 +38,49 @@ pub enum Conduit {
     GenNext,
     GenFold,
     GenCatchFor,
+    /// `(a..=a+1).each(|x| f(x))<adaptor><consumer>`: an iterator pipeline through one of the
+    /// pass-through adaptors and one of the consumers (each with its own error path)
+    Chain(u8, u8),
 }
+
+/// pass-through adaptors: every source element is pulled exactly once, in order
+pub const CHAIN_ADAPTORS: &[(&str, bool)] = &[
+    // (suffix, keeps elements numeric)
+    ("", true),
+    (".chain((0,))", true),
+    (".enumerate()", false),
+    (".intersperse(0)", true),
+    (".skip(0)", true),
+    (".step(1)", true),
+    (".take(2)", true),
+    (".zip(10..12)", false),
+    (".chunks(1)", false),
+    (".windows(1)", false),
+    (".peekable()", true),
+    (".keep(|v| true)", true),
+    (".each(|v| v)", true),
+    (".cycle().take(2)", true),
+];
+
+/// consumers that pull everything
+pub const CHAIN_CONSUMERS: &[(&str, bool)] = &[
+    // (suffix, needs numeric elements)
+    (".count()", false),
+    (".to_list()", false),
+    (".to_tuple()", false),
+    (".last()", false),
+    (".consume()", false),
+    (".fold(0, |p, q| 0)", false),
+    (".all(|v| true)", false),
+    (".any(|v| false)", false),
+    (".position(|v| false)", false),
+    (".find(|v| false)", false),
+    (".min()", true),
+    (".max()", true),
+    (".min_max()", true),
+    (".sum()", true),
+    (".product()", true),
+];
 
 pub const CONDUITS: &[Conduit] = &[
     Conduit::Plain,
@@ -122,12 +164,15 @@ pub enum StrPart {
 pub enum ThrowKind {
     Str(u32),
     Typed(u8, Expr),
+    /// `throw <int>`: any value can be thrown and is caught unchanged with its type
+    Num(Expr),
 }
 
 #[derive(Clone, Debug)]
 pub enum CatchKind {
     Typed(u8),
     String,
+    Number,
     Any,
 }
 
@@ -221,6 +266,7 @@ pub struct GenKnobs {
     pub allow_typed: bool,
     pub allow_return_in_try: bool,
     pub allow_try_result: bool,
+    pub allow_chains: bool,
     pub tick_shapes: Vec<TickShape>,
 }
 
@@ -257,6 +303,7 @@ impl GenKnobs {
             allow_typed: r.chance(2, 3),
             allow_return_in_try: r.chance(1, 2),
             allow_try_result: r.chance(2, 3),
+            allow_chains: r.chance(1, 2),
             tick_shapes,
         }
     }
@@ -309,7 +356,15 @@ impl<'a> Gen<'a> {
             return None;
         }
         let func = *self.r.pick(&funcs);
-        let conduit = *self.r.pick(&self.k.conduits);
+        let mut conduit = *self.r.pick(&self.k.conduits);
+        if self.k.allow_chains && self.r.chance(1, 2) {
+            let ad = self.r.usize_below(CHAIN_ADAPTORS.len());
+            let mut co = self.r.usize_below(CHAIN_CONSUMERS.len());
+            if CHAIN_CONSUMERS[co].1 && !CHAIN_ADAPTORS[ad].1 {
+                co = self.r.usize_below(10); // a consumer that accepts any element
+            }
+            conduit = Conduit::Chain(ad as u8, co as u8);
+        }
         let arg = if depth > 0 && self.r.chance(1, 3) {
             self.int_expr(depth - 1, c)
         } else {
@@ -471,7 +526,9 @@ impl<'a> Gen<'a> {
                     Stmt::Return(self.int_expr(1, c))
                 }
                 22..=23 if self.k.allow_throw && !c.in_finally => {
-                    if self.k.allow_typed && self.r.chance(1, 2) {
+                    if self.k.allow_typed && self.r.chance(1, 5) {
+                        Stmt::Throw(ThrowKind::Num(self.small_int_expr(c)))
+                    } else if self.k.allow_typed && self.r.chance(1, 2) {
                         Stmt::Throw(ThrowKind::Typed(
                             self.r.range(1, 2) as u8,
                             self.small_int_expr(c),
@@ -512,6 +569,8 @@ impl<'a> Gen<'a> {
         for _ in 0..ntyped {
             let kind = if self.r.chance(1, 3) {
                 CatchKind::String
+            } else if self.r.chance(1, 5) {
+                CatchKind::Number
             } else {
                 CatchKind::Typed(self.r.range(1, 2) as u8)
             };
@@ -606,6 +665,8 @@ pub struct PrintOpts {
 }
 
 struct Printer {
+    /// adaptor chains used by the program: their helper functions are emitted on demand
+    chains: std::collections::BTreeSet<(u8, u8)>,
     out: Vec<String>,
     tick_line: Vec<u32>,
     call_line: Vec<u32>,
@@ -726,6 +787,10 @@ impl Printer {
                     Conduit::GenNext => format!("GEN{}({a}).next().get()", c.func),
                     Conduit::GenFold => format!("GEN{}({a}).fold(0, |acc, x| acc + x)", c.func),
                     Conduit::GenCatchFor => format!("GENCSUM{}({a})", c.func),
+                    Conduit::Chain(ad, co) => {
+                        self.chains.insert((ad, co));
+                        format!("C_CH{ad}_{co}({f}, {a})")
+                    }
                 }
             }
         }
@@ -786,8 +851,19 @@ impl Printer {
                 self.line(indent, &t);
             }
             Stmt::AssignList(es) => {
-                let es: Vec<String> = es.iter().map(|e| self.expr(e)).collect();
-                self.line(indent, &format!("l0 = [{}]", es.join(", ")));
+                let multi_line = self.noise.as_mut().is_some_and(|r| r.chance(1, 2));
+                if multi_line {
+                    // one element per line: a failing element is on its own line
+                    self.line(indent, "l0 = [");
+                    for e in es {
+                        let t = self.expr(e);
+                        self.line(indent + 1, &format!("{t},"));
+                    }
+                    self.line(indent, "]");
+                } else {
+                    let es: Vec<String> = es.iter().map(|e| self.expr(e)).collect();
+                    self.line(indent, &format!("l0 = [{}]", es.join(", ")));
+                }
             }
             Stmt::Push(e) => {
                 let e = self.expr(e);
@@ -835,6 +911,10 @@ impl Printer {
                 let e = self.expr(e);
                 self.line(indent, &format!("throw MKERR{k}({e})"));
             }
+            Stmt::Throw(ThrowKind::Num(e)) => {
+                let e = self.expr(e);
+                self.line(indent, &format!("throw {e}"));
+            }
             Stmt::Try(t) => {
                 match t.result {
                     Some(v) => self.line(indent, &format!("i{v} = try")),
@@ -846,6 +926,7 @@ impl Printer {
                     match c.kind {
                         CatchKind::Typed(k) => self.line(indent, &format!("catch e: T{k}")),
                         CatchKind::String => self.line(indent, "catch e: String"),
+                        CatchKind::Number => self.line(indent, "catch e: Number"),
                         CatchKind::Any => self.line(indent, "catch e"),
                     }
                     self.line(indent + 1, &format!("caught({}, e)", t.id));
@@ -881,6 +962,7 @@ impl Printer {
 /// functions that exist.
 pub fn print(p: &Program, opts: &PrintOpts) -> Printed {
     let mut pr = Printer {
+        chains: Default::default(),
         out: vec![],
         tick_line: vec![0; p.n_ticks as usize + 1],
         call_line: vec![0; p.n_calls as usize + 1],
@@ -952,11 +1034,34 @@ pub fn print(p: &Program, opts: &PrintOpts) -> Printed {
             pr.line(1, &format!("m{i}: |x| f{i}(x)"));
         }
     }
+    // main is rendered into a separate buffer first so that the set of used chains is known
+    let header_len = pr.out.len();
     pr.locals(0);
     pr.block(&p.main.body, 0);
     pr.line(0, "dump(3000, i0, i1, i2, s0, l0, m0, GL)");
     let e = pr.expr(p.main.ret.as_ref().unwrap());
     pr.line(0, &e);
+    // insert the helper definitions of the chains in use in front of main and shift the
+    // recorded lines of main's sites accordingly
+    let mut helpers = vec![];
+    for (ad, co) in pr.chains.iter() {
+        helpers.push(format!("export C_CH{ad}_{co} = |f, a|"));
+        helpers.push(format!(
+            "  (a..=a + 1).each(|x| f(x)){}{}",
+            CHAIN_ADAPTORS[*ad as usize].0, CHAIN_CONSUMERS[*co as usize].0
+        ));
+        helpers.push("  return 0".to_string());
+    }
+    if !helpers.is_empty() {
+        let shift = helpers.len() as u32;
+        let at = header_len as u32;
+        for l in pr.tick_line.iter_mut().chain(pr.call_line.iter_mut()) {
+            if *l > at {
+                *l += shift;
+            }
+        }
+        pr.out.splice(header_len..header_len, helpers);
+    }
     let lines = pr.out.len() as u32;
     Printed {
         source: pr.out.join("\n") + "\n",
